@@ -339,6 +339,11 @@ class CookieJar(AbstractCookieJar):
                 tmp = SimpleCookie()
                 tmp[name] = cookie  # type: ignore[assignment]
                 cookie = tmp[name]
+            elif response_url:
+                # The host and the default-path of this response are stored
+                # in a copy: the caller's Morsel keeps no Domain, no Path and
+                # can be applied again (another URL, another jar).
+                cookie = cookie.copy()
 
             # The Domain attribute is case-insensitive (RFC 6265 5.2.3)
             domain = cookie["domain"] = cookie["domain"].lower()
